@@ -543,7 +543,25 @@ func c16ImportLosesPrimary(r *Run) {
 		done <- pr.p.HTTP(ctx, "POST", "/import?name="+h.name, nil, bytes.NewReader(im.Bytes()), false)
 	}()
 	time.Sleep(time.Duration(t.Range(5, 200)) * time.Millisecond)
+	// in half of the runs the application lets go of the lock once the node has
+	// lost the role: an import that is still waiting then must not go ahead
+	releaseAfter := t.Chance(1, 2)
 	pr.p.Store.Demote()
+	released := false
+	if releaseAfter {
+		for dl := time.Now().Add(5 * time.Second); time.Now().Before(dl) && pr.p.Store.IsPrimary(); {
+			time.Sleep(time.Millisecond)
+		}
+		if !pr.p.Store.IsPrimary() {
+			time.Sleep(time.Duration(t.Range(0, 50)) * time.Millisecond)
+			if wal {
+				c.WalEndWrite()
+				c.WalEndRead()
+			}
+			c.UnlockAll()
+			released = true
+		}
+	}
 	var res HTTPResult
 	select {
 	case res = <-done:
@@ -551,7 +569,7 @@ func c16ImportLosesPrimary(r *Run) {
 		r.Failf("c16.import-demoted", "an import that was waiting for the write lock when the node was demoted has not been answered after 40 s")
 		return
 	}
-	desc := fmt.Sprintf("POST /import waiting for the write lock (WAL mode %v) when the node is demoted => %d %s", wal, res.Code, strings.TrimSpace(string(res.Body)))
+	desc := fmt.Sprintf("POST /import waiting for the write lock (WAL mode %v) when the node is demoted (lock released after the role was lost: %v) => %d %s", wal, released, res.Code, strings.TrimSpace(string(res.Body)))
 	r.Logf("%s", desc)
 	if !r.Check(!res.Panicked, "c16.panic", "%s: handler panicked: %s", desc, res.PanicMsg) {
 		return
@@ -559,16 +577,22 @@ func c16ImportLosesPrimary(r *Run) {
 	if !r.Check(!pr.p.Exited, "c16.exit", "%s: the node stopped (Exit %d)", desc, pr.p.ExitCode) {
 		return
 	}
-	if !r.Check(res.Code != 200, "c16.import-demoted", "%s: the import was carried out although an application connection held the write lock the whole time", desc) {
+	if released {
+		if !r.Check(res.Code != 200, "c16.import-demoted", "%s: the import was carried out on a node that had lost the primary role while the request was waiting", desc) {
+			return
+		}
+	} else if !r.Check(res.Code != 200, "c16.import-demoted", "%s: the import was carried out although an application connection held the write lock the whole time", desc) {
 		return
 	}
 	r.Check(db.Pos() == before, "c16.failed-changed", "%s: the position moved %s -> %s", desc, before, db.Pos())
 	// the application's transaction ends; the database is what it was
-	if wal {
-		c.WalEndWrite()
-		c.WalEndRead()
+	if !released {
+		if wal {
+			c.WalEndWrite()
+			c.WalEndRead()
+		}
+		c.UnlockAll()
 	}
-	c.UnlockAll()
 	disk, err := ReadDiskImage(pr.p.Store.DBPath(h.name))
 	if r.Check(err == nil, "c16.failed-changed", "%s: %v", desc, err) {
 		if d := DiffImages(disk, h.ref); d != "" {
@@ -577,7 +601,7 @@ func c16ImportLosesPrimary(r *Run) {
 	}
 	r.Count("c16.import.refused")
 	r.Count("c16.import-demoted.checked")
-	r.State("import-demoted/%v/%d", wal, res.Code)
+	r.State("import-demoted/%v/%v/%d", wal, released, res.Code)
 }
 
 func runC16(r *Run) {
